@@ -1411,16 +1411,48 @@ def conv_context(conv, noverloads=3):
     return _CONV_CTX[(conv, noverloads)]
 
 
-def real_pipe(text, ctx):
+def real_pipe(text, ctx, keep=False):
+    """-> (value, log, None) or (None, None, exception class); keep: the log up to the exception instead of None"""
     del LOG[:]
+    err = v = None
     try:
         v = ENGINE(text).evaluate(context=ctx)
     except Exception as e:
-        return None, None, type(e).__name__
-    finally:
-        log = list(LOG)
-        del LOG[:]
+        err = type(e).__name__
+    log = list(LOG)
+    del LOG[:]
+    if err is not None:
+        return None, (log if keep else None), err
     return freeze(v), log, None
+
+
+FAIL_TAILS = ['select(nosuch($))', 'select(boom($))', 'where($.nosuchProp)', 'select($.nosuch())', 'takeWhile(amb($))',
+              'select(where($, true))', "select(g($, [1]))"]
+
+
+def failing_tail_verdict(p, ctx, tail):
+    """an exception raised LAZILY, when the host's finaliser pulls the first result of a pipeline whose last lambda
+    fails: at that point exactly what is needed for ONE result has been evaluated - the log of the same pipeline
+    consumed by `.take(1)` (Yaql.Props.C11.consumed_prefix_only) -, nothing behind it, nothing twice"""
+    conv = p.get('conv', 'camel')
+    text = '%s.%s' % (pipe_text(p), conv_text(tail, conv))
+    ref = RefEval(ctx)
+    first = ref.run(dict(p, stages=p['stages'] + [dict(op='take', k=1)]))
+    _, log, err = real_pipe(text, conv_context(conv), keep=True)
+    where = '' if conv == 'camel' else ' (in a context of the %s naming convention)' % conv
+    if first and err is None:
+        return ('mismatch', 'error-path-per-element-model', '%s%s: the reference expects the last lambda to fail on the first '
+                'result; the evaluation returns' % (text, where)), text
+    if not first and err is not None:
+        return ('mismatch', 'error-path-per-element-model', '%s%s: raises %s although the pipeline has no result' % (
+            text, where, err)), text
+    if log != ref.log:
+        twice = sorted(set(i for i in log if log.count(i) > ref.log.count(i)))
+        return ('oracle', 'error-path-per-element', '%s%s: %s; probe log %r, but what is evaluated up to the first result - '
+                'each lambda once per element consumed, in order - is %r%s' % (
+                    text, where, 'ends in %s when the first result is converted' % err if err else 'returns', log, ref.log,
+                    ' (evaluated more than once: %r)' % twice if twice else '')), text
+    return None, text
 
 
 def positional(p):
@@ -1839,6 +1871,27 @@ def run_pipes(env, res, rng0, ctxs, hist, rp):
             res.fail(g[0], g[1], g[2], dict(pipe=small, text=pipe_text(small)))
             if len([x for x in res.failures if x.key.startswith('per-element') or x.key == 'spelling']) >= 6:
                 break
+        elif (rp is not None and rp.get('tail')) or (rp is None and p['stages'] and p['stages'][-1]['op'] not in PE_TERMINALS
+                                                    and rng.random() < 0.25):
+            # error path: the same pipeline with a last lambda that fails on the first result it is applied to
+            tail = rp['tail'] if rp is not None else rng.choice(FAIL_TAILS)
+            try:
+                f2, text2 = failing_tail_verdict(p, ctx, tail)
+            except Bad:
+                continue
+            res.case(text2, True)
+            bump(hist, 'pipe-error-path:' + tail.split('(')[0])
+            if f2 and len([x for x in res.failures if x.key == f2[1]]) < 2:
+                q = p
+                for cand in [dict(p, stages=p['stages'][i:j]) for i in range(len(p['stages']) + 1)
+                             for j in range(i, len(p['stages']) + 1)][:40]:
+                    try:
+                        f3, _ = failing_tail_verdict(cand, ctx, tail)
+                    except Exception:       # noqa
+                        continue
+                    if f3 and f3[1] == f2[1] and len(cand['stages']) < len(q['stages']):
+                        q, f2 = cand, f3
+                res.fail(f2[0], f2[1], f2[2], dict(pipe=q, tail=tail, text=pipe_text(q)))
 
 
 # ------------------------------------------------------------------ single calls with a lambda per match / per common key
